@@ -23,7 +23,7 @@ from akext import index as _index
 from akext import identities as _identities
 from akext._util import (FILENAME, CastError, arg_int64, arg_bool, arg_string, arg_optstring, arg_double, cast_int64,
                          cast_uint64, cast_double, cast_string, dict2parameters, parameters2dict, typestrs_arg,
-                         is_iterable, _badarg, no_pickle)
+                         is_iterable, _badarg, no_pickle, InstanceRegistry)
 
 
 def _fn(line):
@@ -37,6 +37,8 @@ def _L():
 # ---------------------------------------------------------------- boxing
 
 CLASS_BY_ID = {}        # classid -> Python class (filled below)
+INSTANCES = InstanceRegistry(lambda h: _lib.L.akp_raw(h))
+_Registered = INSTANCES.metaclass()
 
 
 def _free(h):
@@ -47,7 +49,7 @@ def _free(h):
 def _new(cls, h):
     self = object.__new__(cls)
     self._h = h
-    return self
+    return INSTANCES.add(self)
 
 
 def _share(h):
@@ -59,6 +61,10 @@ def _share(h):
     cls = CLASS_BY_ID.get(cid)
     if cls is None:
         cls = Content          # e.g. ak::None: only the base class is registered
+    existing = INSTANCES.find(h, cls)
+    if existing is not None:
+        _free(h)
+        return existing
     return _new(cls, h)
 
 
@@ -518,7 +524,7 @@ def _minmax(name):
 # ---------------------------------------------------------------- Content and content_methods<T>
 
 @no_pickle
-class Content(object):
+class Content(object, metaclass=_Registered):
     """awkward._ext.Content: the abstract base registered by make_Content"""
     __slots__ = ("_h", "__weakref__")
 
@@ -1194,7 +1200,7 @@ def _astuple(self):
 
 @no_pickle
 @_ext
-class Record(object):
+class Record(object, metaclass=_Registered):
     """awkward._ext.Record (not a Content subclass in Python)"""
     __slots__ = ("_h", "__weakref__")
 
